@@ -521,10 +521,11 @@ pub fn match_known<'a>(known: &'a [KnownFinding], prop: &str, class: &str, tags:
             && k.property == prop
             && (k.class_prefix.is_empty() || class.starts_with(&k.class_prefix))
             && (k.classes.is_empty() || k.classes.iter().any(|c| c == class))
-            && !k.trigger.is_empty()
+            && !(k.trigger.is_empty() && k.trigger_any.is_empty())
             && k.source_regex.is_empty()
             && k.trigger.iter().all(|t| tags.contains(t))
+            && (k.trigger_any.is_empty() || k.trigger_any.iter().any(|t| tags.contains(t)))
             && k.locus_contains.iter().all(|l| locus.iter().any(|x| x == l))
-            && (k.benign.is_empty() || tags.iter().all(|t| k.trigger.contains(t) || k.benign.contains(t)))
+            && (k.benign.is_empty() || tags.iter().all(|t| k.trigger.contains(t) || k.trigger_any.contains(t) || k.benign.contains(t)))
     })
 }
